@@ -131,3 +131,33 @@ func init() {
 		Assumes:    []string{"go/cfg control flow", "the tree passes visit exactly what Children() returns"},
 	})
 }
+
+func init() {
+	register(&propSpec{
+		ID:    "C01",
+		Rules: []func(*Ctx){ruleR01a, ruleR01b, ruleR01c, ruleR01d, ruleR01e, ruleR01f, ruleR07c},
+		Explain: "R01a: every token that can start an expression (evaluated over all token kinds) starts an implicit print; R01b: lexNegative evaluated for every token kind that can precede '-' agrees with the language partition (subtraction exactly after a complete operand); R01c: each operator's pipeline (scanner symbol, operator class, precedence entry, node constructor, Go and JS cases) is complete, the relative precedence order of all operator pairs equals the language table and binary operators are left-associative; R01d: every node type the parser builds has an evaluator case or a named parent; R01e: each operator case of the Go evaluator applies the language's operator to (Arg1, Arg2) in order, the ternary and ?: select as defined; R01f: built-in functions exist with the language's arities; R07c: Children() completeness (so globals are set on every GlobalNode).",
+		NotDecided: "every value-level clause: integer/float arithmetic results, string/number formatting, truthiness and equality values, literal decoding, function results, 'undefined is an error'.",
+		Assumes:    []string{"the frozen language tables in the checker (operator levels, operand-ending tokens, function arities) transcribe the Soy language reference"},
+	})
+}
+
+func init() {
+	register(&propSpec{
+		ID:    "C04",
+		Rules: []func(*Ctx){ruleR04a, ruleR04b, ruleR04d, ruleR04f, ruleR04g, ruleR11a, ruleR07b},
+		Explain: "Sibling cross-check of the two backends: R04a node-kind case sets agree (named exceptions); R04b function tables (names, argument counts), loop functions and print-directive tables (names, CancelAutoescape) agree; R04d the generator's scope push/pop is paired and every command body gets its own frame; R04f each operator node emits the JavaScript operator the language maps it to, operands in order; R04g visitPrint (evaluated over mode x cancel flag) wraps the value in escapeHtml exactly when the Go renderer escapes; R11a message parts are handled by both backends; R07b binder kinds agree.",
+		NotDecided: "anything inside soyutils.js; number formatting; mixed-type equality; whether emitted sub-expressions can re-associate with their context (parenthesisation), which needs an emission-grammar analysis not built here.",
+		Assumes:    []string{"the frozen operator mapping Soy -> JavaScript in the checker"},
+	})
+}
+
+func init() {
+	register(&propSpec{
+		ID:    "C11",
+		Rules: []func(*Ctx){ruleR11a, ruleR11b, ruleR11c, ruleR10c},
+		Explain: "R11a: every kind of soymsg.Part that the module constructs has a non-empty case in both backends' part renderers; R11b: the reference keys the extractor writes (id=, var=) are exactly those the catalogue loader reads, the loader skips exactly the tested prefix, and the msgid writer's { } placeholder syntax matches the reader's pattern; R11c: placeholders and plural variables are looked up and printed by the very fields the naming pass assigns (Name, VarName); R10c: those fields are assigned only by the naming pass.",
+		NotDecided: "the round-trip equality of rendered text, plural selection per locale, fallback to source text (all quantify over catalogue contents and data); that distinct placeholders print distinct source text (C17).",
+		Assumes:    []string{"the gettext/po library splits references at whitespace"},
+	})
+}
